@@ -35,7 +35,7 @@ PROBES = ['forged-sender', 'unicast-to-well-known-name', 'unicast-to-unique-name
           'broadcast-to-two-holders', 'broadcast-no-holder', 'destination-also-holds-rule',
           'bus-call-while-rule-holder-matches', 'no-reply-flag-forwarded', 'big-endian-forwarded',
           'variant-in-forwarded-body', 'real-client-sender', 'new-peer-mid-run',
-          'name-owner-changed-mid-run', 'sender-holds-matching-rule', 'bus-drained-then-reconnect']
+          'name-owner-changed-mid-run', 'sender-holds-matching-rule', 'bus-drained-then-reconnect', 'name-taken-over']
 COMPONENTS = {
     'real': ['txdbus.bus.Bus (messageReceived, sendMessage, dbus_AddMatch, clientConnected/'
              'Disconnected)', 'txdbus.bus.BusProtocol (tracing subclass on rawDBusMessageReceived / '
@@ -271,6 +271,8 @@ def scenario(ctx):
         ok = reply is not None and reply.mtype == rc.METHOD_RETURN
         if mem == 'RequestName' and ok and m.sig == 'su':
             if reply.body[0] == 1:
+                if owners.get(m.body[0]) not in (None, name):
+                    sim.probe('name-taken-over')
                 owners[m.body[0]] = name
                 sim.probe('name-owner-changed-mid-run')
         elif mem == 'ReleaseName' and ok and m.sig == 's':
@@ -317,6 +319,7 @@ def scenario(ctx):
     rig.journal[:] = []          # Hello traffic is not part of the judged history
     for rec in peers.values():
         rec['nsent'] = len(rec['sent'])
+        rec['nsent0'] = len(rec['sent'])
     budget = [3 + ds.choose(28 * (3 if ctx.tier == 'thorough' else 1))]
 
     def some_dest():
@@ -370,7 +373,8 @@ def scenario(ctx):
             p.bus_call('AddMatch', 's', [fmt_rule(spec)])
             sim.log('op', rec['name'], 'AddMatch', sorted(spec))
         elif k == 3:
-            p.bus_call('RequestName', 'su', [ds.pick(NAMES), 4 | (1 if ds.flag(0.3) else 0)])
+            # always DO_NOT_QUEUE (no queues here), with and without the allow / replace bits
+            p.bus_call('RequestName', 'su', [ds.pick(NAMES), 4 | ds.pick([0, 1, 2, 3, 1, 3])])
             sim.log('op', rec['name'], 'RequestName')
         elif k == 4:
             p.bus_call('ReleaseName', 's', [ds.pick(NAMES)])
@@ -403,7 +407,8 @@ def scenario(ctx):
             d.addErrback(lambda f: None)
             sim.log('op', rec['name'], 'addMatch', sorted(spec))
         else:
-            d = rig.call(rec, cl.requestBusName, ds.pick(NAMES), allowReplacement=ds.flag(0.3))
+            d = rig.call(rec, cl.requestBusName, ds.pick(NAMES), allowReplacement=ds.flag(0.4),
+                         replaceExisting=ds.flag(0.4))
             d.addErrback(lambda f: None)
             sim.log('op', rec['name'], 'requestBusName')
 
@@ -467,6 +472,19 @@ def scenario(ctx):
     ok = sched.drain(1000 * (3 if ctx.tier == 'thorough' else 1), None, invariant)
     if not ok:
         raise Violation('C14/liveness', 'no quiescence', 'drain did not reach quiescence')
+    # ---- everything that reached the bus was processed ------------------------------------
+    seen_in = {}
+    for kind, who, what in rig.journal:
+        if kind == 'in':
+            seen_in[who] = seen_in.get(who, 0) + 1
+    for n, rec in peers.items():
+        pipe = rec['conn'].pipes[0]
+        if rec['conn'].b.state == net.OPEN and not pipe.buf and not rec['conn'].b.broken:
+            sent_n = len(rec['sent']) - rec.get('nsent0', 0)
+            if seen_in.get(n, 0) < sent_n:
+                raise Violation('C14/not-processed', 'messages stuck in the bus',
+                                'peer %s wrote %d messages, all delivered to the bus, which processed '
+                                'only %d of them' % (n, sent_n, seen_in.get(n, 0)))
     # ---- per (sender, receiver) order -----------------------------------------------------
     for rname, rec in peers.items():
         last = {}
